@@ -31,7 +31,8 @@ def rand_nodesize(rnd, sid):
     for _ in range(n):
         types.append({"price": rnd.randint(1, 6), "ram": rnd.choice([10, 20, 21, 40, 41, 60, 80, 100]),
                       "vcpus": rnd.choice([1, 2, 4, 8]),
-                      "scratch": rnd.choice([0, MI64, 2 * MI64 - 1, 2 * MI64, 2 * MI64 + 1, 4 * MI64, 6 * MI64, 8 * MI64]),
+                      "scratch": rnd.choice([0, MI64, 2 * MI64 - 1, 2 * MI64, 2 * MI64 + 1, 4 * MI64, 6 * MI64, 8 * MI64,
+                                             2000000000]),
                       "pre": rnd.random() < 0.3})
     t = rnd.choice(types)
     # RAM need around t's boundary: floor(sum*100/95) in t.ram-1 .. t.ram+1
